@@ -10,6 +10,30 @@ RELATIONS = {}
 KNOWN_CLASSES = {}
 
 
+POST = {}
+
+
+def normalise_case(c):
+    """cases read back from JSON (corpus, replays): lists -> the tuples generators produce"""
+    c["instrs"] = [tuplify_instr(i) for i in c["instrs"]]
+    for key in ("leaves", "grads", "tangents"):
+        if key in c and isinstance(c[key], dict):
+            c[key] = {int(k): v for k, v in c[key].items()}
+    if c.get("seed") is not None:
+        c["seed"] = (list(c["seed"][0]), list(c["seed"][1]))
+
+
+def tuplify_instr(i):
+    i = list(i)
+    if i[0] == "op":
+        return ("op", tuple(i[1]), list(i[2]))
+    if i[0] == "backward":
+        return ("backward", i[1], None if i[2] is None else (list(i[2][0]), list(i[2][1])))
+    if i[0] == "model":
+        return ("model", [tuple(tuple(x) if isinstance(x, list) and x and not isinstance(x[0], float) and len(x) in (2, 4) and all(isinstance(y, int) for y in x) and k in (1, 2) and l[0] == "convl" else x for k, x in enumerate(l)) for l in i[1]], i[2], i[3])
+    return tuple(i)
+
+
 def tuplify(x):
     if isinstance(x, list):
         return tuple(tuplify(y) if isinstance(y, list) and _is_tuple_pos(y) else y for y in x)
@@ -251,4 +275,422 @@ PROPS["C04"] = {
             "pairs with dimensions up to 6 and random floats; distinct = distinct program text",
     "exhaustive": {"quick": True, "thorough": True},
     "assumptions": [],
+}
+
+
+# ======================================================================================
+# C05 matrix multiplication
+
+LEADS = [[], [1], [2], [1, 1], [1, 2], [2, 1], [2, 2]]
+
+
+def int_vals(n, rng, lo=-3, hi=3):
+    return [float(rng.randint(lo, hi)) for _ in range(n)]
+
+
+def mat_dims(r, c, t):
+    return [c, r] if t else [r, c]
+
+
+def bias_forms(rows, cols):
+    return [None, [cols], [rows, cols], [1, cols], [1]]
+
+
+def gen_C05(tier, rng):
+    cases = []
+    k = 0
+    for rows, inner, cols in itertools.product((1, 2, 3), repeat=3):
+        for ta, tb in itertools.product((False, True), repeat=2):
+            for la in LEADS:
+                for lb in LEADS:
+                    if not bcompat(la, lb):
+                        continue
+                    da = la + mat_dims(rows, inner, ta)
+                    db = lb + mat_dims(inner, cols, tb)
+                    forms = bias_forms(rows, cols)
+                    if tier == "quick":
+                        if (k * 7 + len(la) + 3 * len(lb)) % 3 != 0:
+                            k += 1
+                            continue
+                        forms = [forms[k % 5]]
+                    k += 1
+                    ins = [("leaf", False, da, iota(prod(da), 1.0)),
+                           ("leaf", False, db, [float(2 + (i * 3) % 7) for i in range(prod(db))])]
+                    for f in forms:
+                        if f is None:
+                            ins.append(("op", ("matmul", ta, tb), [0, 1]))
+                        else:
+                            ins.append(("leaf", False, f, [float(100 * (i + 1)) for i in range(prod(f))]))
+                            ins.append(("op", ("matmul", ta, tb), [0, 1, len(ins) - 1]))
+                    cases.append(case("mm", ins, "rank>=2:lead%d_%d" % (len(la), len(lb))))
+    # rank-1 forms
+    for n in (1, 2, 3):
+        for m in (1, 2, 3):
+            for lead in ([], [2], [1, 2]):
+                for ta, tb in itertools.product((False, True), repeat=2):
+                    # vector on the left: one-row matrix [1, n] (transposed: [n, 1])
+                    db = lead + (mat_dims(n, m, tb) if not ta else mat_dims(1, m, tb))
+                    ins = [("leaf", False, [n], iota(n, 1.0)),
+                           ("leaf", False, db, [float(2 + i) for i in range(prod(db))]),
+                           ("op", ("matmul", ta, tb), [0, 1])]
+                    cases.append(case("vec_left", ins, "rank1:left"))
+                    # vector on the right: one-row matrix [1, n] (transposed: the column [n, 1])
+                    da = lead + (mat_dims(m, n, ta) if tb else mat_dims(m, 1, ta))
+                    ins = [("leaf", False, da, iota(prod(da), 1.0)),
+                           ("leaf", False, [n], [float(2 + i) for i in range(n)]),
+                           ("op", ("matmul", ta, tb), [0, 1])]
+                    cases.append(case("vec_right", ins, "rank1:right"))
+            # dot product of two untransposed vectors; different lengths are refused
+            ins = [("leaf", False, [n], iota(n, 1.0)), ("leaf", False, [m], iota(m, 4.0)),
+                   ("op", ("matmul", False, False), [0, 1])]
+            cases.append(case("dot", ins, "rank1:dot" if n == m else "refuse:dot"))
+    # mismatching inner dimension must be refused
+    for rows, inner, cols in itertools.product((1, 2, 3), repeat=3):
+        for other in (1, 2, 3, 4):
+            if other == inner:
+                continue
+            for ta, tb in itertools.product((False, True), repeat=2):
+                for lead in ([], [2]):
+                    da = lead + mat_dims(rows, inner, ta)
+                    db = mat_dims(other, cols, tb)
+                    ins = [("leaf", False, da, iota(prod(da))), ("leaf", False, db, iota(prod(db))),
+                           ("op", ("matmul", ta, tb), [0, 1])]
+                    cases.append(case("mm_refuse", ins, "refuse:inner"))
+    count = 150 if tier == "quick" else 3000
+    for _ in range(count):
+        rows, inner, cols = (rng.randint(1, 5) for _ in range(3))
+        ta, tb = rng.random() < 0.5, rng.random() < 0.5
+        out_lead = [rng.randint(1, 3) for _ in range(rng.randint(0, 2))]
+        def lead():
+            r = rng.randint(0, len(out_lead))
+            return [d if rng.random() < 0.6 else 1 for d in out_lead[len(out_lead) - r:]]
+        da = lead() + mat_dims(rows, inner, ta)
+        db = lead() + mat_dims(inner, cols, tb)
+        ins = [("leaf", False, da, [rng.uniform(-2, 2) for _ in range(prod(da))]),
+               ("leaf", False, db, [rng.uniform(-2, 2) for _ in range(prod(db))])]
+        f = rng.choice(bias_forms(rows, cols))
+        if f is None:
+            ins.append(("op", ("matmul", ta, tb), [0, 1]))
+        else:
+            ins.append(("leaf", False, f, [rng.uniform(-2, 2) for _ in range(prod(f))]))
+            ins.append(("op", ("matmul", ta, tb), [0, 1, 2]))
+        cases.append(case("mm_random", ins, "random"))
+    return cases
+
+
+PROPS["C05"] = {
+    "gen": gen_C05,
+    "rule": "(rows, inner, cols) in {1,2,3}^3 x 4 transposition pairs x all broadcast-compatible pairs of leading "
+            "dimension lists from {[],[1],[2],[1,1],[1,2],[2,1],[2,2]} x additive term {absent,[cols],[rows,cols],"
+            "[1,cols],[1]} (quick: one third of the grid with one additive-term form per case, rotating; thorough: "
+            "the full grid), the rank-1 forms (vector left/right of a rank>=2 operand with every flag pair, dot "
+            "product), the refusal stream (mismatching inner dimension, dot product of different lengths) and "
+            "seeded random float cases with sizes up to 5; integer data compared exactly; distinct = distinct "
+            "program text",
+    "exhaustive": {"quick": False, "thorough": True},
+    "assumptions": ["pairs of rank-1 operands with a transposition flag are outside the property and not generated"],
+}
+
+
+# ======================================================================================
+# C06 convolution
+
+def conv_case(rng, batch, depth, count, rows, cols, fr, fc, sr, sc, floats=False):
+    di = batch + [depth, rows, cols]
+    df = [count, depth, fr, fc]
+    if floats:
+        iv = [rng.uniform(-2, 2) for _ in range(prod(di))]
+        fv = [rng.uniform(-2, 2) for _ in range(prod(df))]
+    else:
+        iv = [float((7 * i + 3) % 11 - 5) for i in range(prod(di))]
+        fv = [float((5 * i + 1) % 7 - 3) for i in range(prod(df))]
+    ins = [("leaf", False, di, iv), ("leaf", False, df, fv), ("op", ("conv", sr, sc), [0, 1])]
+    cls = "batch%s:%s" % ("x".join(map(str, batch)) or "none",
+                          "overlap" if (sr < fr or sc < fc) else "disjoint")
+    return case("conv", ins, cls)
+
+
+def gen_C06(tier, rng):
+    grid = []
+    for rows, cols in itertools.product(range(1, 6), repeat=2):
+        for fr, fc in itertools.product(range(1, 4), repeat=2):
+            if fr > rows or fc > cols:
+                continue
+            for sr, sc in itertools.product(range(1, 4), repeat=2):
+                for depth in (1, 2):
+                    for count in (1, 2):
+                        for batch in ([], [1], [2], [2, 2]):
+                            grid.append((batch, depth, count, rows, cols, fr, fc, sr, sc))
+    if tier == "quick":
+        small = [g for g in grid if g[3] <= 3 and g[4] <= 3 and g[7] <= 2 and g[8] <= 2 and g[0] != [2, 2]]
+        rest = [g for g in grid if g not in small]
+        grid = small + rng.sample(rest, 600)
+    cases = [conv_case(rng, *g) for g in grid]
+    for _ in range(60 if tier == "quick" else 1500):
+        rows, cols = rng.randint(1, 7), rng.randint(1, 7)
+        fr, fc = rng.randint(1, min(3, rows)), rng.randint(1, min(3, cols))
+        cases.append(conv_case(rng, rng.choice([[], [1], [2], [3], [2, 2]]), rng.randint(1, 3),
+                               rng.randint(1, 3), rows, cols, fr, fc, rng.randint(1, 3),
+                               rng.randint(1, 3), floats=True))
+    return cases
+
+
+PROPS["C06"] = {
+    "gen": gen_C06,
+    "rule": "image rows, cols in 1..5, filter rows, cols in 1..3 (not larger than the image), both strides in 1..3 "
+            "independently, depth in {1,2}, filter count in {1,2}, batch in {absent,[1],[2],[2,2]}: thorough = the "
+            "whole grid, quick = the sub-grid with image <= 3x3, strides <= 2, batch != [2,2] plus 600 seeded samples "
+            "of the rest; integer data compared exactly, plus seeded random float cases up to 7x7; distinct = "
+            "distinct program text",
+    "exhaustive": {"quick": False, "thorough": True},
+    "assumptions": ["filters larger than the image are outside the property and not generated"],
+}
+
+
+# ======================================================================================
+# C07 reductions, reshape, point-wise maps
+
+def factorizations(n, max_rank=4):
+    out = []
+    def rec(rem, acc):
+        if len(acc) >= 1 and rem == 1:
+            out.append(list(acc))
+        if len(acc) == max_rank:
+            return
+        for d in range(1, rem + 1):
+            if rem % d == 0 and (d > 1 or acc.count(1) < 2):
+                rec(rem // d, acc + [d])
+    rec(n, [])
+    return [f for f in out if prod(f) == n]
+
+
+MAPS = [("neg",), ("scale", -2.5), ("scale", 0.0), ("powf", 2.0), ("powf", 3.0), ("powf", 0.5), ("powf", -1.0),
+        ("powf", 2.5), ("ln",), ("exp",), ("recip",), ("relu",), ("sigmoid",)]
+
+
+def gen_C07(tier, rng):
+    cases = []
+    shapes = all_shapes(4, 3)
+    for s in shapes:
+        n = prod(s)
+        ins = [("leaf", False, s, [float((3 * i) % 7 - 2) for i in range(n)])]
+        for k in range(0, len(s) + 1):
+            ins.append(("op", ("sum", k), [0]))
+        ins.append(("sumall", 0))
+        cases.append(case("sum", ins, "sum:rank%d" % len(s)))
+    seen = set()
+    for s in shapes:
+        n = prod(s)
+        if n in seen and tier == "quick" and rng.random() < 0.7:
+            continue
+        seen.add(n)
+        ins = [("leaf", False, s, iota(n, 1.0))]
+        for t in factorizations(n):
+            ins.append(("op", ("reshape", t), [0]))
+        cases.append(case("reshape", ins, "reshape"))
+        for bad in (n + 1, n - 1, 2 * n):
+            if bad >= 1 and bad != n:
+                t = rng.choice(factorizations(bad))
+                cases.append(case("reshape_refuse", [ins[0], ("op", ("reshape", t), [0])], "refuse:reshape"))
+    for s in shapes:
+        if tier == "quick" and len(s) == 4 and rng.random() < 0.6:
+            continue
+        n = prod(s)
+        pos = [rng.uniform(0.2, 3.0) for _ in range(n)]
+        mixed = [rng.choice([0.0, -1.5, 2.0, rng.uniform(-3, 3)]) for _ in range(n)]
+        ins = [("leaf", False, s, pos), ("leaf", False, s, mixed)]
+        for m in MAPS:
+            ins.append(("op", m, [0]))
+            if m[0] in ("neg", "scale", "exp", "relu", "sigmoid") or m in (("powf", 2.0), ("powf", 3.0)):
+                ins.append(("op", m, [1]))
+        ins.append(("op", ("softmax",), [0]))
+        ins.append(("op", ("softmax",), [1]))
+        cases.append(case("maps", ins, "maps:rank%d" % len(s), rtol=1e-9))
+    if tier == "thorough":
+        for _ in range(600):
+            s = [rng.randint(1, 6) for _ in range(rng.randint(1, 4))]
+            n = prod(s)
+            ins = [("leaf", False, s, [rng.uniform(0.1, 4) for _ in range(n)])]
+            ins.append(("op", ("sum", rng.randint(0, len(s))), [0]))
+            ins.append(("op", rng.choice(MAPS), [0]))
+            ins.append(("op", ("softmax",), [0]))
+            ins.append(("sumall", 0))
+            cases.append(case("c07_random", ins, "random"))
+    return cases
+
+
+PROPS["C07"] = {
+    "gen": gen_C07,
+    "rule": "all shapes of rank 1..4 with dimensions 1..3: sum(k) for every k in 0..rank and sum_all (integer data, "
+            "exact); reshape to every ordered factorisation (rank <= 4) of the element count and refusal of other "
+            "counts; neg, scale, powf (2, 3, 0.5, -1, 2.5), ln, exp, reciprocal, relu, sigmoid and softmax on positive "
+            "data and, where in-domain, on data with zeros and negatives; thorough adds seeded random shapes up to 6; "
+            "distinct = distinct program text",
+    "exhaustive": {"quick": False, "thorough": True},
+    "assumptions": ["ln, reciprocal and non-integer powers are only applied to positive data (in-domain values)"],
+}
+
+
+# ======================================================================================
+# graph programs (C01-C03, C09-C12, C17, C18)
+
+import randprog
+
+
+def finish_pass(b, root, seed, observe=None):
+    """backward on root, then the gradient of every leaf (and the listed extra handles)"""
+    b.emit(("backward", root.idx, seed))
+    grads = {}
+    for v in list(b.vars.values()):
+        if v.live and (v.leaf or (observe and v in observe)):
+            i = b.emit(("grad", v.idx))
+            grads[v.idx] = i
+    return grads
+
+
+def graph_case(name, b, root, seed, cls, **kw):
+    bw = len(b.ins)
+    grads = finish_pass(b, root, seed)
+    c = case(name, b.ins, cls, **kw)
+    c["adjudicate"] = sorted(grads.values())
+    c["root"] = root.idx
+    c["seed"] = seed
+    c["backward_at"] = bw
+    c["grads"] = grads
+    c["leaves"] = {v.idx: (v.tracked, v.dims) for v in b.leaves()}
+    return c
+
+
+def add_tangents(c, rng, exact=True):
+    """random tangent directions for the dual-number check"""
+    t = {}
+    for idx, (tracked, dims) in c["leaves"].items():
+        n = prod(dims)
+        if tracked:
+            t[idx] = [float(rng.randint(-2, 2)) if exact else rng.uniform(-1, 1) for _ in range(n)]
+        else:
+            t[idx] = [0.0] * n
+    c["tangents"] = t
+    c["dual"] = True
+    return c
+
+
+def small_dags(n_ops, kinds_of, rng, leaf_dims=(2,)):
+    """every way of wiring n_ops binary operation nodes over 2 leaves"""
+    def rec(k, nodes):
+        if k == n_ops:
+            yield []
+            return
+        for x in range(nodes):
+            for y in range(nodes):
+                for rest in rec(k + 1, nodes + 1):
+                    yield [(x, y)] + rest
+    for wiring in rec(0, 2):
+        yield wiring
+
+
+def dag_program(wiring, kinds, rng, tracked=(True, True), dims=(2,), vals=None):
+    b = randprog.Builder(rng, exact=True)
+    d = list(dims)
+    a0 = b.leaf(d, tracked=tracked[0], values=vals[0] if vals else None)
+    a1 = b.leaf(d, tracked=tracked[1], values=vals[1] if vals else None)
+    nodes = [a0, a1]
+    for (x, y), kind in zip(wiring, kinds):
+        ax, ay = nodes[x], nodes[y]
+        if kind == "cmul":
+            v = b.result(("custom", "mul"), [ax, ay], d, False, True, ax.mag * ay.mag)
+            v.tracked = True
+        else:
+            v = b.result((kind,), [ax, ay], d, False, True, ax.mag * ay.mag + ax.mag + ay.mag)
+        nodes.append(v)
+    return b, nodes
+
+
+def readme_loop(a0, b0, c0, iters, thr, rng):
+    """the README example: data-dependent control flow, unrolled by evaluating the branch here"""
+    b = randprog.Builder(rng, exact=True)
+    a = b.leaf([1], tracked=True, values=[float(a0)])
+    bb = b.leaf([1], tracked=True, values=[float(b0)])
+    c = b.leaf([1], tracked=True, values=[float(c0)])
+    cv = c0
+    cur = c
+    for _ in range(iters):
+        m = b.result(("mul",), [a, bb], [1], False, True, 0)
+        cur = b.result(("add",), [cur, m], [1], False, True, 0)
+        cv = cv + a0 * b0
+        if cv > thr:
+            cur = b.result(("mul",), [cur, a], [1], False, True, 0)
+            cv = cv * a0
+    return b, cur, abs(cv)
+
+
+def gen_C01(tier, rng):
+    cases = []
+    kinds = ["add", "mul", "cmul"]
+    # (i) exhaustive wirings
+    maxn = 3
+    k = 0
+    for n in range(1, maxn + 1):
+        for wiring in small_dags(n, None, rng):
+            for rep in range(3 if n < 3 else 1):
+                ks = [kinds[(k + i + rep) % 3] for i in range(n)]
+                k += 1
+                tr = [(True, True), (True, False), (False, True)][k % 3] if k % 4 == 0 else (True, True)
+                b, nodes = dag_program(wiring, ks, rng, tracked=tr)
+                c = graph_case("dag", b, nodes[-1], b.seed_for(nodes[-1]), "dag:%dops" % n)
+                cases.append(add_tangents(c, rng))
+    four = list(small_dags(4, None, rng))
+    if tier == "quick":
+        four = rng.sample(four, 1200)
+    for wiring in four:
+        ks = [rng.choice(kinds) for _ in range(4)]
+        b, nodes = dag_program(wiring, ks, rng)
+        c = graph_case("dag4", b, nodes[-1], b.seed_for(nodes[-1]), "dag:4ops")
+        cases.append(add_tangents(c, rng))
+    # (ii) random integer programs over every ring operation, with broadcasting
+    n_exact = 500 if tier == "quick" else 6000
+    for i in range(n_exact):
+        b = randprog.Builder(rng, exact=True, max_rank=rng.choice([2, 3, 4]))
+        root = b.build(rng.randint(1, 12))
+        c = graph_case("rand_exact", b, root, b.seed_for(root), "random:exact")
+        cases.append(add_tangents(c, rng))
+    # (iii) random float programs over every operation
+    n_float = 300 if tier == "quick" else 4000
+    for i in range(n_float):
+        b = randprog.Builder(rng, exact=False, max_rank=3)
+        root = b.build(rng.randint(1, 8))
+        c = graph_case("rand_float", b, root, b.seed_for(root), "random:float", rtol=1e-7)
+        cases.append(add_tangents(c, rng, exact=False))
+    # (iv) data-dependent control flow
+    for a0, b0, c0, iters, thr in [(5, 2, 0, 10, 50), (2, 3, 1, 8, 20), (3, 1, 0, 9, 10), (2, 2, 0, 12, 30),
+                                   (1, 4, 2, 10, 15), (2, 1, 1, 14, 6)]:
+        b, root, mag = readme_loop(a0, b0, c0, iters, thr, rng)
+        if mag < 2 ** 50:
+            c = graph_case("readme", b, root, None, "control_flow")
+            cases.append(add_tangents(c, rng))
+    # (v) deep chains of self-products (2^depth paths)
+    for depth in (10, 20, 30):
+        b = randprog.Builder(rng, exact=True)
+        x = b.leaf([2], tracked=True, values=[1.0, -1.0])
+        cur = x
+        for _ in range(depth):
+            cur = b.result(("add",), [cur, cur], [2], False, True, 0)
+        c = graph_case("selfsum", b, cur, ([2], [1.0, 2.0]), "chain:selfsum")
+        cases.append(add_tangents(c, rng))
+    return cases
+
+
+PROPS["C01"] = {
+    "gen": gen_C01,
+    "rule": "every wiring of 1-3 binary operation nodes over two leaves (kinds add / mul / user-defined mul rotating, "
+            "tracked and untracked leaves), 4-node wirings (all 14400 in the thorough tier, 1200 sampled in quick), "
+            "seeded random programs of 1-12 operations over every operation with broadcasting operands (integer data: "
+            "exact; float data: rtol 1e-7), the README data-dependent loop for six parameter sets, chains of "
+            "self-sums of depth 10-30; leaf gradients after backward(seed or none) are compared with the model and, "
+            "independently, as a directional derivative with the model's dual-number evaluation; distinct = distinct "
+            "program text",
+    "exhaustive": {"quick": False, "thorough": False},
+    "assumptions": ["user-defined operations are the three closures of the harness library (mul, affine, square)",
+                    "in-domain values: ln/reciprocal/division/fractional powers only on positive data"],
+    "dual": True,
 }
